@@ -109,6 +109,12 @@ class Diamond(DiaLeft, DiaRight):
     d: int = 0
 
 
+@spec_class(init_overflow_attr="extra", bootstrap=True)
+class OverflowBare:                # the overflow attribute has no default of its own
+    x: int = 0
+    extra: Dict[str, Any]
+
+
 def prep(cls):
     return cls
 
@@ -181,6 +187,11 @@ def other_checks():
         out.append("Overflow(x=1, u=2, v=3): overflow attribute holds %r, expected exactly the unknown keywords" % (o.options,))
     if Overflow(x=1).options != {}:
         out.append("Overflow(x=1): overflow attribute not empty")
+    for label, o, want in (("OverflowBare()", OverflowBare(), {}), ("OverflowBare(x=1)", OverflowBare(x=1), {}),
+                           ("OverflowBare(u=2)", OverflowBare(u=2), {"u": 2})):
+        got = o.__dict__.get("extra", MISSING)
+        if got != want:
+            out.append("%s: the overflow attribute holds %r, expected exactly the unknown keywords %r" % (label, got, want))
     if Base(name="k").name != "k":
         out.append("Base(name='k') did not accept the key by keyword")
     return out
@@ -215,7 +226,7 @@ def main():
             break
     if not bad:
         oc = other_checks()
-        n += 5
+        n += 8
         if oc:
             bad, call = oc[0], "(other_checks() or [None])[0]"
     out = {"cases": n, "found": bool(bad), "distinct": n}
